@@ -227,6 +227,7 @@
 #endif
 
 #include "assert.hpp"
+#include "verif_hooks.hpp"
 
 namespace unodb {
 
@@ -389,11 +390,13 @@ class [[nodiscard]] optimistic_lock final {
       // This thread has written the previous lock word value, and no other
       // thread may write it before the unlock, thus we can read it without
       // ordering.
+      UNODB_DETAIL_VERIF_SCHED(lock_unlock, this);
       const auto old_lock_word = load_relaxed();
       UNODB_DETAIL_ASSERT(old_lock_word.is_write_locked());
 
       const auto new_lock_word = old_lock_word.get() + 2;
       version.store(new_lock_word, std::memory_order_release);
+      UNODB_DETAIL_VERIF_OBS(lock_unlock, this, new_lock_word);
     }
 
     /// Atomically clear the set write lock bit and set the obsolete bit with
@@ -407,8 +410,11 @@ class [[nodiscard]] optimistic_lock final {
       UNODB_DETAIL_ASSERT(old_lock_word.is_write_locked());
 #endif
 
+      UNODB_DETAIL_VERIF_SCHED(lock_obsolete, this);
       version.store(version_type::obsolete_lock_word,
                     std::memory_order_release);
+      UNODB_DETAIL_VERIF_OBS(lock_obsolete, this,
+                             version_type::obsolete_lock_word);
 
       UNODB_DETAIL_ASSERT(load_relaxed().is_obsolete());
     }
@@ -682,7 +688,9 @@ class [[nodiscard]] optimistic_lock final {
   /// protected data access to check for obsolete state.
   [[nodiscard]] read_critical_section try_read_lock() noexcept {
     while (true) {
+      UNODB_DETAIL_VERIF_SCHED(lock_load, this);
       const auto current_version = version.load_acquire();
+      UNODB_DETAIL_VERIF_OBS(lock_load, this, current_version.get());
       if (UNODB_DETAIL_LIKELY(current_version.is_free())) {
         inc_read_lock_count();
         return read_critical_section{*this, current_version};
@@ -691,6 +699,8 @@ class [[nodiscard]] optimistic_lock final {
       if (UNODB_DETAIL_UNLIKELY(current_version.is_obsolete()))
         return read_critical_section{};
       UNODB_DETAIL_ASSERT(current_version.is_write_locked());
+      UNODB_DETAIL_VERIF_SCHED(lock_spin, this);
+      UNODB_DETAIL_VERIF_OBS(lock_spin, this, current_version.get());
       spin_wait_loop_body();
       // LCOV_EXCL_STOP
     }
@@ -758,7 +768,15 @@ class [[nodiscard]] optimistic_lock final {
 #ifndef UNODB_DETAIL_THREAD_SANITIZER
     std::atomic_thread_fence(std::memory_order_acquire);
 #endif
+    UNODB_DETAIL_VERIF_SCHED(lock_check, this);
+#ifdef UNODB_DETAIL_VERIF_HOOKS
+    const auto verif_observed_version{version.load_relaxed()};
+    const auto result{locked_version == verif_observed_version};
+    UNODB_DETAIL_VERIF_OBS(lock_check, this, locked_version.get(),
+                           verif_observed_version.get());
+#else
     const auto result{locked_version == version.load_relaxed()};
+#endif
 #ifndef NDEBUG
     if (UNODB_DETAIL_UNLIKELY(!result)) dec_read_lock_count();
 #endif
@@ -788,8 +806,11 @@ class [[nodiscard]] optimistic_lock final {
   /// was taken
   [[nodiscard]] bool try_upgrade_to_write_lock(
       version_type locked_version) noexcept {
+    UNODB_DETAIL_VERIF_SCHED(lock_cas, this);
     const auto result{
         version.cas_acquire(locked_version, locked_version.set_locked_bit())};
+    UNODB_DETAIL_VERIF_OBS(lock_cas, this, locked_version.get(),
+                           static_cast<std::uint64_t>(result));
     dec_read_lock_count();
     return UNODB_DETAIL_LIKELY(result);
   }
@@ -912,12 +933,25 @@ class [[nodiscard]] in_critical_section final {
 
   /// Explicitly read the wrapped value.
   [[nodiscard]] T load() const noexcept {
+#ifdef UNODB_DETAIL_VERIF_HOOKS
+    UNODB_DETAIL_VERIF_SCHED(cs_load, &value);
+    const T verif_result = value.load(std::memory_order_relaxed);
+    UNODB_DETAIL_VERIF_OBS(cs_load, &value,
+                           UNODB_DETAIL_VERIF_BITS(verif_result), sizeof(T));
+    return verif_result;
+#else
     return value.load(std::memory_order_relaxed);
+#endif
   }
 
   /// Explicitly assign the wrapped value from \a new_value.
   void store(T new_value) noexcept {
+    UNODB_DETAIL_VERIF_SCHED(cs_store, &value);
     value.store(new_value, std::memory_order_relaxed);
+#ifdef UNODB_DETAIL_VERIF_HOOKS
+    UNODB_DETAIL_VERIF_OBS(cs_store, &value,
+                           UNODB_DETAIL_VERIF_BITS(new_value), sizeof(T));
+#endif
   }
 
   in_critical_section(const in_critical_section&) = delete;
